@@ -6,6 +6,7 @@ import (
 	"errors"
 	"fmt"
 	"io"
+	"os"
 	"path/filepath"
 	"time"
 
@@ -430,5 +431,102 @@ func partA(r *vrun.Run) {
 			}
 		}
 	}
-	_ = afero.NewMemMapFs
+	// files whose content is longer than the size their metadata reports (kernel pseudo-files; a backend which does not
+	// know sizes; a file appended to after its size was looked at): a limited read still delivers at most the limit
+	type sizeless struct {
+		backend string
+		fs      filesystem.FS
+		path    string
+		n       int
+	}
+	var targets []sizeless
+	osfs := filesystem.NewStandardFileSystem()
+	for _, p := range []string{"/proc/version", "/proc/filesystems", "/proc/self/status", "/proc/cpuinfo"} {
+		b, err := os.ReadFile(p)
+		st, err2 := os.Stat(p)
+		if err != nil || err2 != nil || len(b) < 8 || st.Size() != 0 {
+			continue
+		}
+		targets = append(targets, sizeless{"os(kernel pseudo-file)", osfs, p, len(b)})
+	}
+	zmem := afero.NewMemMapFs()
+	zfs := filesystem.NewVirtualFileSystem(zeroSizeFs{zmem}, filesystem.StandardFS, filesystem.IdentityPathConverterFunc)
+	_ = zmem.MkdirAll("/sizeless", 0o755)
+	for _, S := range []int{100, 4097, 65537} {
+		p := fmt.Sprintf("/sizeless/f%d.bin", S)
+		if err := afero.WriteFile(zmem, p, bigData[:S], 0o644); err == nil {
+			targets = append(targets, sizeless{"backend reporting size 0", zfs, p, S})
+		}
+	}
+	for _, t := range targets {
+		for _, M := range []int64{1, 7, int64(t.n) / 2, int64(t.n) - 1} {
+			if M < 1 {
+				continue
+			}
+			lim := filesystem.NewLimits(M, 1<<40, 1<<20, 100, false)
+			for _, ep := range []string{"ReadFileWithLimits", "ReadFileWithContextAndLimits"} {
+				var b []byte
+				var err error
+				if ep == "ReadFileWithLimits" {
+					b, err = t.fs.ReadFileWithLimits(t.path, lim)
+				} else {
+					b, err = t.fs.ReadFileWithContextAndLimits(context.Background(), t.path, lim)
+				}
+				r.Case(fmt.Sprintf("%s|sizeless|%s|%s|%d", ep, t.backend, t.path, M), true)
+				r.Obs("limited_reads_of_files_longer_than_their_reported_size_judged", 1)
+				r.ObsSet("files_longer_than_their_reported_size", t.backend+": "+t.path)
+				if int64(len(b)) > M {
+					r.Violation(vrun.Sig{"part": "limited-file-read", "effect": "more-than-the-limit-delivered", "ep": ep, "backend": t.backend},
+						fmt.Sprintf("%s(%s) with MaxFileSize %d delivered %d bytes (content of about %d bytes, reported size 0), err=%v", ep, t.path, M, len(b), t.n, err),
+						map[string]any{"entry_point": ep, "backend": t.backend, "path": t.path, "max_file_size": M, "bytes": len(b), "result": fmt.Sprint(err)})
+				}
+			}
+		}
+	}
+}
+
+// zeroSizeFs reports a size of 0 for every regular file; contents are served normally.
+type zeroSizeFs struct{ afero.Fs }
+
+type zeroInfo struct{ os.FileInfo }
+
+func (z zeroInfo) Size() int64 {
+	if z.FileInfo.IsDir() {
+		return z.FileInfo.Size()
+	}
+	return 0
+}
+
+type zeroFile struct{ afero.File }
+
+func (f zeroFile) Stat() (os.FileInfo, error) {
+	fi, err := f.File.Stat()
+	if err != nil {
+		return fi, err
+	}
+	return zeroInfo{fi}, nil
+}
+
+func (z zeroSizeFs) Stat(name string) (os.FileInfo, error) {
+	fi, err := z.Fs.Stat(name)
+	if err != nil {
+		return fi, err
+	}
+	return zeroInfo{fi}, nil
+}
+
+func (z zeroSizeFs) Open(name string) (afero.File, error) {
+	f, err := z.Fs.Open(name)
+	if err != nil {
+		return nil, err
+	}
+	return zeroFile{f}, nil
+}
+
+func (z zeroSizeFs) OpenFile(name string, flag int, perm os.FileMode) (afero.File, error) {
+	f, err := z.Fs.OpenFile(name, flag, perm)
+	if err != nil {
+		return nil, err
+	}
+	return zeroFile{f}, nil
 }
